@@ -155,6 +155,9 @@ where
 {
     inner: KeyedSubfield<Inner, Prev, K, T>,
     guard: Option<Guard>,
+    /// the triggers to notify once the guard is dropped and the keys are refreshed;
+    /// `None` if the write is untracked
+    triggers: Option<Vec<ArcTrigger>>,
 }
 
 impl<Inner, Prev, K, T, Guard> Deref
@@ -206,6 +209,7 @@ where
     K: Debug + Send + Sync + PartialEq + Eq + Hash + 'static,
 {
     fn untrack(&mut self) {
+        self.triggers = None;
         if let Some(inner) = self.guard.as_mut() {
             inner.untrack();
         }
@@ -222,17 +226,21 @@ where
     K: Debug + Send + Sync + PartialEq + Eq + Hash + 'static,
 {
     fn drop(&mut self) {
-        // dropping the inner guard will
-        // 1) synchronously release its write lock on the store's value
-        // 2) trigger an (asynchronous) reactive update
+        // dropping the inner guard (which is untracked, see `try_write`) synchronously
+        // releases its write lock on the store's value
         drop(self.guard.take());
 
         // now that the write lock is release, we can get a read lock to refresh this keyed field
         // based on the new value
         self.inner.update_keys();
-        self.inner.notify();
 
-        // reactive updates happen on the next tick
+        // only now trigger the reactive update: a subscriber that runs synchronously (an
+        // `ImmediateEffect`, or an effect polled on another thread) resolves its key through
+        // the key map, which must already describe the new order, or it reads another
+        // item's value or indexes out of bounds
+        if let Some(triggers) = self.triggers.take() {
+            triggers.notify();
+        }
     }
 }
 
@@ -319,10 +327,14 @@ where
     type Value = T;
 
     fn try_write(&self) -> Option<impl UntrackableGuard<Target = Self::Value>> {
-        let guard = self.writer()?;
+        let mut guard = self.writer()?;
+        // the notification is sent by `KeyedSubfieldWriteGuard::drop`, after the keys
+        // have been refreshed
+        guard.untrack();
         Some(KeyedSubfieldWriteGuard {
             inner: self.clone(),
             guard: Some(guard),
+            triggers: Some(self.triggers_for_current_path()),
         })
     }
 
@@ -334,6 +346,7 @@ where
         Some(KeyedSubfieldWriteGuard {
             inner: self.clone(),
             guard: Some(guard),
+            triggers: None,
         })
     }
 }
